@@ -257,6 +257,14 @@ def install(eng):
     def v_u64(st, a): return st.new_input(nm(st, a[0]), 64)
     @model('verif_f64')
     def v_f64(st, a): return st.new_input(nm(st, a[0]), 64)
+    @model('verif_range_u32', 'verif_range_u64')
+    def v_range(st, a):
+        lo, hi = eng.concretize(st, a[0], 'range lo'), eng.concretize(st, a[1], 'range hi')
+        bits = 32 if lo < (1 << 32) and hi < (1 << 32) and eng._cur_callee.endswith('u32') else 64
+        v = st.new_input(nm(st, a[2]), bits)
+        st.var_ranges = dict(st.var_ranges); st.var_ranges[v.get_id()] = (lo, hi)      # declared range, also used by the integer encodings
+        st.pc.append(z3.And(z3.UGE(v, lo), z3.ULE(v, hi)))
+        return v
     @model('verif_bytes')
     def v_bytes(st, a):
         p = a[0]; n = eng.concretize(st, a[1], 'verif_bytes n'); name = nm(st, a[2])
